@@ -29,6 +29,7 @@ pub fn c14(args: &Args, reg: &[TypeEntry], log: &mut Log) {
     let by_id: HashMap<&str, &TypeEntry> = reg.iter().map(|e| (e.id.as_str(), e)).collect();
     // (1) for every registered type: inline() is the body of decl() instantiated at the type's arguments
     for e in reg {
+        log.start(&e.id, &e.rust);
         let inline = guarded(e.inline);
         let name = guarded(e.name);
         if guarded(e.output_path).ok().flatten().is_none() {
